@@ -98,7 +98,14 @@ func (c *Cache[k, v]) DeleteAll() error {
 		if c.pruneFn != nil {
 			v := c.entries[key].value
 			c.mu.Unlock()
+			// the caller does not hold a lock on the entries, use the same hooks as the asynchronous pruning
+			if c.prunePreFn != nil {
+				c.prunePreFn(key, v)
+			}
 			err := c.pruneFn(key, v)
+			if c.prunePostFn != nil {
+				c.prunePostFn(key, v)
+			}
 			c.mu.Lock()
 			if err != nil {
 				errs = append(errs, err)
